@@ -289,3 +289,24 @@ func specItemFor(it pathItem) string { panic("uninterpreted: the path template t
 //@   ensures keys:  forall k jsonpointer.RefKey :: jsonpointer.VerifInProgress(ctx, k) == old(jsonpointer.VerifInProgress(ctx, k))
 //@   ensures stack: jsonpointer.VerifStack(ctx) == old(jsonpointer.VerifStack(ctx))
 //@   ensures forpath: err == nil ==> specItemFor(r) == itemPath.path
+
+// ---------------------------------------------------------------------------
+// C11 (the generator is total): the examples section of parseMediaType, extracted mechanically (the
+// statements from the `examples := make(...)` to the loop that adds every example value to the schema).
+// Safety contract only: for ANY media type object - including `examples: {name: null}`, which
+// parseExample answers with (nil, nil) - the section does not panic. parseExample's result may be nil
+// (its trusted contract promises nothing else), so the second loop must not dereference blindly.
+// The map loops are modelled as iteration over arbitrary entries.
+// ---------------------------------------------------------------------------
+
+//@ extract verifMediaExamples(p *parser, ctx *jsonpointer.ResolveCtx, m ogen.Media, s *jsonschema.Schema) (exs map[string]*openapi.Example, err error)
+//@ xfrom parse_mediatype.go (*parser).parseMediaType
+//@ xstmt examples := make(map[string]*openapi.Example
+//@ xupto for _, ex := range examples {
+//@ xtail return examples, nil
+
+//@ func verifMediaExamples(p *parser, ctx *jsonpointer.ResolveCtx, m ogen.Media, s *jsonschema.Schema) (exs map[string]*openapi.Example, err error)
+//@   requires recv: p != nil && ctx != nil
+//@   noframe safety-only contract of an extracted section (it fills a map it allocates itself and appends to the schema's examples)
+//@   modifies ctx.depthLimit, ctx.refs[*], ctx.locstack, s.Examples
+//@   ensures total: true
